@@ -4555,3 +4555,12 @@ Proof.
   destruct (Hall t l Hin Ht Hm') as [X|[X|X]]; unfold record_count;
     [apply has_receipt_row_iff in X|apply has_pending_row_iff in X|apply has_invalid_row_iff in X]; rewrite X; cbn; lia.
 Qed.
+
+(* the notification path sends nothing to a tower whose (cloned) status is misbehaving, and retrytower refuses it *)
+Lemma rev_tower_skips_misbehaving s l t rp : rev_tower s l t Misbehaving rp = (s, None) \/ rev_tower s l t Misbehaving rp = (s, Some (SClient Site_poisoned)).
+Proof. unfold rev_tower. destruct (poisoned s); [right; reflexivity|]. destruct (wt_has_appointment (f_c s) t l); left; reflexivity. Qed.
+
+Lemma manual_retry_refuses_misbehaving s t su :
+  aget (c_towers (f_c s)) t = Some su -> su_status su = Misbehaving -> aget (c_retriers (f_c s)) t = None ->
+  f_manual_retry s t = (s, OErr E_not_retryable) \/ f_manual_retry s t = (s, OPanic (SClient Site_poisoned)).
+Proof. intros H1 H2 H3. unfold f_manual_retry. destruct (poisoned s); [right; reflexivity|]. rewrite H1, H3, H2. left. reflexivity. Qed.
